@@ -320,6 +320,19 @@ def run_stream(fe, tbq, lines, indexed=True):
             events.append((i, 'T', '|'.join(hx(r) for r in item)))
     if not indexed:
         events = [(0, k, t) for _, k, t in events]
+    if fe == 'iter' and not tbq and crash is None:
+        # the same lines as text through IterMessages.from_strings: the same deliveries
+        try:
+            texts = [l.decode('utf-8') for l in lines]
+            if [t.encode('utf-8') for t in texts] == list(lines):
+                alt = [show_sentence(m) for m in ST.IterMessages.from_strings(texts)]
+                if alt != [t for _, k, t in events if k == 'D']:
+                    return 'READERS-DIFFER IterMessages=%d deliveries from_strings=%d deliveries' % (
+                        len([1 for _, k, _ in events if k == 'D']), len(alt))
+        except UnicodeDecodeError:
+            pass
+        except Exception as e:  # noqa
+            return 'READERS-DIFFER from_strings raised ' + err(e)
     return _emit(events, crash)
 
 
@@ -357,6 +370,13 @@ def make_socket_stream(chunks, q, cls=None):
 
 
 SOCKET_CLASSES = [ST.SocketStream, ST.TCPConnection, ST.UDPReceiver]
+
+
+def _try(fn):
+    try:
+        return fn()
+    except Exception as e:  # noqa
+        return err(e)
 
 
 def _family(results):
@@ -660,10 +680,21 @@ def step2(line):
     cmd = p[0]
     if cmd == 'parse':
         _siblings([unhx(p[1])])
-        return show_sentence(M.NMEASentenceFactory.produce(unhx(p[1])))
+        return _family({'NMEASentenceFactory.produce': _try(lambda: show_sentence(M.NMEASentenceFactory.produce(unhx(p[1])))),
+                        'decode_nmea_line': _try(lambda: show_sentence(DEC.decode_nmea_line(unhx(p[1]))))})
     if cmd == 'decode':
-        _siblings([unhx(x) for x in p[2:]])
-        return canon_msg(pyais.decode(*[unhx(x) for x in p[2:]], error_if_checksum_invalid=(p[1] == '1')))
+        args = [unhx(x) for x in p[2:]]
+        strict = (p[1] == '1')
+        _siblings(args)
+        fam = {'decode': _try(lambda: canon_msg(pyais.decode(*args, error_if_checksum_invalid=strict))),
+               'decode_nmea_and_ais': _try(lambda: canon_msg(DEC.decode_nmea_and_ais(*args, error_if_checksum_invalid=strict)[1]))}
+        try:
+            sargs = [a.decode('utf-8') for a in args]
+            if [a.encode('utf-8') for a in sargs] == args:
+                fam['decode(str)'] = _try(lambda: canon_msg(pyais.decode(*sargs, error_if_checksum_invalid=strict)))
+        except UnicodeDecodeError:
+            pass
+        return _family(fam)
     if cmd == 'assemble':
         _siblings([unhx(x) for x in p[2:]])
         return show_sentence(DEC._assemble_messages(*[unhx(x) for x in p[2:]], error_if_checksum_invalid=(p[1] == '1')))
